@@ -116,7 +116,7 @@ PROPS["C13"] = dict(
                  "Panacea.C13.listing_walk_complete", "Panacea.C13.listing_count_total", "Panacea.C13.writers_listing_only_topic",
                  "Panacea.C13.listing_reverse_walk_complete", "Panacea.C13.listing_offset_page", "Panacea.C13.listing_offset_walk_complete",
                  "Panacea.C18.prefix_exact", "Panacea.C01.addRecord_acknowledged"],
-    streams=[dict(name="aol", quick=150, thorough=3000, thorough_seeds=3)],
+    streams=[dict(name="aol", quick=150, thorough=3000, thorough_seeds=3), dict(name="genesis", quick=25, thorough=400, thorough_seeds=2)],
     trusted=AOL_TRUSTED + ["hand-written model Panacea/Model/Paginate.lean of cosmos-sdk v0.47.12 types/query/pagination.go (Paginate, getIterator), tied by the aol stream's random page requests and full walks"],
     assumptions=["CountInv s0 (sorted tables, well-formed keys, counters = listing lengths mod 2^64): proved for the empty genesis, preserved by every message",
                  "listing sizes and counters below 2^64 for the plain-equality corollaries",
